@@ -46,7 +46,7 @@ def main():
         if r.returncode != 0:
             res["error"] = r.stdout[-500:]; raise SystemExit
         demo = [f for f in os.listdir(mdir) if f.startswith("demo.")]
-        demo = os.path.join(mdir, sorted(demo)[0])
+        demo = os.path.join(mdir, "demo.sh" if "demo.sh" in demo else sorted(demo)[0])   # a shell recipe, when delivered, is the demonstration (it builds demo.cpp itself)
         # 1. test-suite with the change
         b = os.path.join(scratch, "_b")
         r1 = sh("cmake -G Ninja -S %s -B %s -DCMAKE_BUILD_TYPE=RelWithDebInfo -DCMAKE_CXX_FLAGS=-Wno-error -DCMAKE_C_FLAGS=-Wno-error && cmake --build %s -j8 --target photospline-test photospline-test-templated photospline-test-fit" % (scratch, b, b))
